@@ -8,7 +8,7 @@ RULE = {
     "every read result, every raised / not raised MemoryAddressError and the whole touched image are compared with the flat reference after each operation. non-trivial = history with >=1 overlapping mixed-width read of written data, >=1 rejected access and >=1 wrapped address (TOY: >=1 rejected and >=1 multi-cell access); distinct by case hash."
 }
 ASSUMPTIONS = {"C18": ["a multi-byte write that straddles the valid range may leave its in-range bytes written or not (DESIGN 5-r2); the reference re-synchronises on exactly those bytes, each of which must hold the old or the new value"]}
-REQUIRED = {"C18": ["reads_compared", "writes_applied", "rejected_low", "rejected_straddle", "wrapped_addresses", "outside_unchanged_checks", "toy_ops", "toy_rejected", "width8_ops", "unaligned_ops"]}
+REQUIRED = {"C18": ["reads_compared", "writes_applied", "rejected_low", "rejected_straddle", "wrapped_addresses", "outside_unchanged_checks", "toy_ops", "toy_rejected", "width8_ops", "unaligned_ops", "writes_with_other_value_types"]}
 
 
 def plan(prop, tier, seed):
@@ -28,9 +28,28 @@ def gen_rv(rng, nops):
             a += (1 << 32) * rng.choice([1, 2])
         w = rng.choice([1, 2, 4, 8])
         ops.append(["w" if rng.random() < 0.5 else "r", a, w, rng.getrandbits(8 * w)])
+        _spell(rng, ops[-1])
         if rng.random() < 0.12:
             ops.append(list(ops[-1]))  # exactly the same access again (also after a rejected one)
     return {"kind": "rv", "ops": ops}
+
+
+def _spell(rng, op):
+    """a write of width w stores the low 8w bits of the value it is given, whatever integer type carries it: the
+    caller may hand over a plain int, a wider fixed-width integer (a register value) or a negative number"""
+    if op[0] != "w" or rng.random() > 0.2:
+        return
+    w = op[2]
+    k = rng.choice(["int", "wide-int", "neg-int", "u32", "i32", "u64"])
+    if k == "wide-int":
+        op[3] |= (rng.getrandbits(12) | 1) << (8 * w)
+    elif k == "neg-int":
+        op[3] -= 1 << (8 * w)
+    elif k in ("u32", "i32") and w < 4:
+        op[3] |= (rng.getrandbits(32 - 8 * w) | 1) << (8 * w)
+    elif k == "u64" and w < 8:
+        op[3] |= (rng.getrandbits(64 - 8 * w) | 1) << (8 * w)
+    op.append(k)
 
 
 def gen_toy(rng, nops):
@@ -41,6 +60,7 @@ def gen_toy(rng, nops):
             a += rng.choice([1 << 12, 1 << 16, -(1 << 12)])
         w = rng.choice([2, 2, 4, 8])
         ops.append(["w" if rng.random() < 0.5 else "r", a, w, rng.getrandbits(8 * w)])
+        _spell(rng, ops[-1])
         if rng.random() < 0.12:
             ops.append(list(ops[-1]))
     return {"kind": "toy", "ops": ops}
@@ -91,8 +111,11 @@ def run_case(prop, case, res):
     def image():
         return {a: int(v) for a, v in m.memory_file.items() if int(v)}
 
-    for i, (op, a, w, v) in enumerate(case["ops"]):
+    SPELL = {"int": int, "wide-int": int, "neg-int": int, "u32": fixedint.UInt32, "i32": fixedint.Int32, "u64": fixedint.UInt64}
+    for i, (op, a, w, v, *sp) in enumerate(case["ops"]):
         n = cells(w)
+        if sp:
+            v = int(SPELL[sp[0]](v))  # the integer the memory is actually handed
         addrs = [flat.norm(a + k) for k in range(n)]
         valid = [flat.lo <= x < flat.hi for x in addrs]
         where = "op #%d %s addr=%d (%#x) width=%d" % (i, op, a, a & M32, w)
@@ -113,6 +136,9 @@ def run_case(prop, case, res):
                 got = int(RD[w](a)) if fl is None or toy else int(RD[w](a, fl))
             else:
                 f, T = WR[w]
+                if sp:
+                    T = SPELL[sp[0]]
+                    res.count("writes_with_other_value_types")
                 fl = case.get("flags", {}).get(str(i))
                 if fl is None:
                     f(a, T(v))
@@ -185,6 +211,8 @@ def run_case(prop, case, res):
 def directed():
     return [
         {"kind": "rv", "ops": [["w", 0x3FFE, 4, 0x11223344], ["r", 0x4000, 2, 0], ["w", 0xFFFFFFFE, 4, 0xAABBCCDD], ["r", 0xFFFFFFFE, 2, 0], ["w", -2, 2, 0x1234], ["r", 0xFFFFFFFE + (1 << 32), 2, 0], ["r", 0x3FFF, 1, 0], ["w", 0, 8, 5], ["w", 0x4001, 8, 0x1122334455667788], ["r", 0x4003, 4, 0], ["r", 0x4000, 8, 0], ["w", 0xFFFFFFF9, 8, 0xFFFFFFFFFFFFFFFF], ["r", 0xFFFFFFFC, 4, 0]]},
+        {"kind": "rv", "ops": [["w", 0x4000, 4, 0x11111111], ["w", 0x4001, 1, 0x1234, "wide-int"], ["r", 0x4000, 4, 0], ["w", 0x4002, 1, -1, "neg-int"], ["r", 0x4000, 4, 0], ["w", 0x4008, 1, 0xAABBCCDD, "u32"], ["r", 0x4008, 8, 0], ["w", 0x4010, 2, 0x12345678, "u32"], ["r", 0x4010, 4, 0], ["w", 0x4014, 4, 0x123456789, "wide-int"], ["r", 0x4014, 8, 0]]},
+        {"kind": "toy", "ops": [["w", 10, 2, 0x12345, "wide-int"], ["r", 10, 4, 0], ["w", 12, 2, -1, "neg-int"], ["r", 11, 8, 0], ["w", 20, 2, 0xAABBCCDD, "u32"], ["r", 20, 4, 0]]},
         {"kind": "toy", "ops": [["w", 4095, 2, 0xBEEF], ["r", 4095, 2, 0], ["w", 4095, 4, 0x12345678], ["r", 4095, 2, 0], ["w", 4096, 2, 1], ["r", -1, 2, 0], ["w", 0, 8, 0x1122334455667788], ["r", 1, 4, 0], ["r", 4096 + 5, 2, 0], ["w", 4093, 8, 7], ["r", 4093, 2, 0]]},
     ]
 
